@@ -349,7 +349,36 @@ WITH_COMPRESSION = ("lib-all3", "lib-default", "all-bins", "lib-release")
 r1_decision_table.only_configs = WITH_COMPRESSION
 r2_flag_carried.only_configs = WITH_COMPRESSION
 
+def r5_compressors_only_emit_compressed_clusters(cx):
+    """'the hint decides', not the data: a cluster routed to a compressor worker leaves it as `WriteTask::Compressed`. The
+    worker never builds the raw task (`WriteTask::Cluster`, directly or through `ClusterCreator -> WriteTask`), whatever
+    the compressed size turned out to be -- the raw path belongs to the proxy's routing (R2), which only looks at the flag."""
+    F = cx.F
+    fs = [f for f in F.live_fns if "blocks" in f and re.search(r"clusterwriter::ClusterCompressor", (f.get("impl_self") or "") + " " + f["name"])]
+    if not fs:
+        raise AnchorLost("no function of ClusterCompressor")
+    raw, comp = [], 0
+    for f in fs:
+        b = F.body(f)
+        for i, blk in enumerate(b.blocks):
+            if blk.get("cleanup"):
+                continue
+            for st in blk["s"]:
+                rv = st.get("rv") or {}
+                if st["k"] == "assign" and rv.get("k") == "agg" and (rv.get("adt") or "").endswith("clusterwriter::WriteTask"):
+                    if rv.get("variant") == "Compressed":
+                        comp += 1
+                    else:
+                        raw.append((f, st.get("ln")))
+            t = blk["t"]
+            if call_is(t, r"Into<.*clusterwriter::WriteTask>>::into$", r"WriteTask as .*From<.*ClusterCreator>>::from$"):
+                raw.append((f, t.get("ln")))
+    cx.ob("R5", "R5/ClusterCompressor/only-compressed-tasks", comp >= 1 and not raw, fs[0],
+          "the compressor workers build WriteTask::Compressed (%d sites) and never the raw task (raw task built at lines %s)" % (comp, [ln for _, ln in raw]))
+
+
 RULES = [
+    ("R5", r5_compressors_only_emit_compressed_clusters, 1),
     ("R1", r1_decision_table, 6),
     ("R2", r2_flag_carried, 6),
     ("R3", r3_tail_says, 4),
